@@ -20,6 +20,7 @@ import (
 	"strconv"
 	"strings"
 	"sync"
+	"time"
 
 	"github.com/kjk/lzma"
 	"github.com/klauspost/compress/zstd"
@@ -295,8 +296,22 @@ func loadDebFileDump(data []byte) string {
 	return "ok " + dumpLoadedDeb(d)
 }
 
-// fdsOpenOn counts the descriptors of this process that refer to path
+// fdsOpenOn counts the descriptors of this process that refer to path.  os.File.Close returns
+// while a read that another goroutine (a decompressor's) has in flight still holds a reference;
+// the descriptor goes when that read returns - so a descriptor that is still there is looked
+// for again for up to three seconds before it counts.
 func fdsOpenOn(path string) int {
+	n := 0
+	for try := 0; try < 60; try++ {
+		if n = fdsOpenOnce(path); n == 0 {
+			return 0
+		}
+		time.Sleep(50 * time.Millisecond)
+	}
+	return n
+}
+
+func fdsOpenOnce(path string) int {
 	ents, err := os.ReadDir("/proc/self/fd")
 	if err != nil {
 		return 0
